@@ -54,7 +54,7 @@ static std::string c_to_unicode(std::string_view s) {
   return r;
 }
 
-static void op_toascii(const std::string& x) {
+static void op_toascii(const std::string& x, bool plain = false) {
   out().pending = "toascii";
   std::string a2;
   bool ok;
@@ -71,7 +71,7 @@ static void op_toascii(const std::string& x) {
   std::string host = r ? std::string(r->get_hostname()) : std::string();
   std::string s = "{\"e\":\"toascii\",\"in\":" + jbytes(x) + ",\"ok\":" + jb(ok) + ",\"a\":" + jbytes(a) +
                   ",\"a2\":" + jbytes(ok ? a2 : std::string()) + ",\"ca\":" + jbytes(ca) + ",\"u\":" + jbytes(u) +
-                  ",\"cu\":" + jbytes(cu) + ",\"host\":{\"v\":" + jb((bool)r) + ",\"s\":" + jbytes(host) + "}}";
+                  ",\"cu\":" + jbytes(cu) + ",\"plain\":" + jb(plain) + ",\"host\":{\"v\":" + jb((bool)r) + ",\"s\":" + jbytes(host) + "}}";
   out().line(s);
 }
 
@@ -129,6 +129,7 @@ int main(int argc, char** argv) {
     ss >> op;
     if (op == "R") continue;
     if (op == "A") { ss >> a; op_toascii(unhex(a)); }
+    else if (op == "AP") { ss >> a; op_toascii(unhex(a), true); }   // a single label of unmapped, NFC-stable letters (see gen_idna.w_puny_plain)
     else if (op == "W") { size_t pos = 0; ss >> a >> pos; op_law(unhex(a), pos); }
     else if (op == "Q") { ss >> a >> b; op_eqv(unhex(a), unhex(b)); }
     else if (op == "V") {
